@@ -200,6 +200,14 @@ fn main() {
         Some(BlockContentEncoderMap::builder().set_data_series_encoder(DataSeries::ReadLengths, Some(Encoder::Rans4x8(rans_4x8::Order::One))).build()),
         vec![tagged.clone()],
     );
+    // fqzcomp: a read base feature (non-ACGTN mismatch) puts one more byte into the QS series than the
+    // read length the writer passes to the codec
+    let fqz = || Some(BlockContentEncoderMap::builder().set_data_series_encoder(DataSeries::QualityScores, Some(Encoder::Fqzcomp)).build());
+    round_trip("F1 fqzcomp on QS, ordinary read", fqz(), vec![mapped("q1", 0, 0, 1, 8)]);
+    let mut k = mapped("q1", 0, 0, 1, 8);
+    k.sequence_mut().as_mut()[3] = b'K';
+    round_trip("F2 fqzcomp on QS, read with a non-ACGTN mismatch (read base feature)", fqz(), vec![k]);
+
     // fqzcomp: declared raw size of the QS block
     println!("--- S4 fqzcomp block: declared raw size");
     let recs = vec![mapped("q1", 0, 0, 1, 8), mapped("q2", 0, 0, 3, 8), mapped("q3", 0, 0, 5, 8)];
